@@ -50,6 +50,23 @@ class Cx:
             self.bad(rid, key, where, detail_bad or detail_ok)
         return cond
 
+    def include(self, module, rules, rid, text, floor=None):
+        """evaluate another property's module on the same facts and adopt the obligations of the given
+        rules under rule id `rid` (a construct that is a necessary condition of both properties)"""
+        self.rule(rid, text, floor)
+        sub = Cx(self.prop, self.tier, self.p, self.progs)
+        module.check(sub)
+        for o in sub.obl:
+            if o["rule"] in rules:
+                key = o["key"].split(":", 1)[1] if ":" in o["key"] else o["key"]
+                key = "%s/%s" % (o["rule"], key)
+                if o["status"] == "ok":
+                    self.ok(rid, key, o["where"], o["detail"])
+                elif o["status"] == "violation":
+                    self.bad(rid, key, o["where"], o["detail"])
+                else:
+                    self.advisory(rid, key, o["where"], o["detail"])
+
     def guard(self, rid, what, fn, *a, **kw):
         """run an anchor lookup; a missing anchor is a fail-closed violation"""
         try:
